@@ -11,7 +11,6 @@ package main
 // Characters are parameters of the model).
 
 import (
-	"bufio"
 	"fmt"
 	"hash/fnv"
 	"strconv"
@@ -395,13 +394,14 @@ func scanLines(w *wspec, ctx vxfw.DrawContext) (enc string, nLines int, capped b
 				}
 				return
 			}
-			sc := bufio.NewScanner(strings.NewReader(w.text))
-			for sc.Scan() {
+			// the lines of a Text that is not soft-wrapped: the widget's own splitter (hook; since /repo
+			// 3fa26b1 it splits at the hard line breaks itself, before: bufio.ScanLines)
+			for _, line := range text.VerifC14HardLines(w.text) {
 				if e.n >= lineCap {
 					capped = true
 					return
 				}
-				e.chars(ctx.Characters(sc.Text()), w.st)
+				e.chars(ctx.Characters(line), w.st)
 			}
 		case 'R':
 			cells := []vaxis.Cell{}
